@@ -41,7 +41,9 @@ ASSUMPTIONS = [
     "N < 2^29 (not reachable: the formula would have > 2^57 clauses)",
 ]
 NOTES = ["Ramsey witness: the argument s is overwritten by the mapping variable group; cases with k != s carry the "
-         "class 'ramseywitness:k!=s' (known finding D25)"]
+         "class 'ramseywitness:k!=s' (known finding D25)",
+         "GraphIsomorphism(..., nontrivial=True) never reads the flag; such cases carry the class 'iso:nontrivial-flag' "
+         "(known finding D30)"]
 
 
 # ---------------------------------------------------------------- graphs
@@ -362,7 +364,8 @@ def build(suite, info):
 
     if suite == "g2_iso":
         g1, g2 = info["g1"], info["g2"]
-        impl = run(lambda: GraphIsomorphism(mk_graph(g1), mk_graph(g2), formula_class=fc))
+        nontrivial = bool(info.get("nontrivial", False))
+        impl = run(lambda: GraphIsomorphism(mk_graph(g1), mk_graph(g2), nontrivial=nontrivial, formula_class=fc))
 
         def check(F):
             if F is None:
@@ -371,12 +374,15 @@ def build(suite, info):
             if r or F.number_of_variables() > MAXVARS:
                 return r
             isos = isomorphisms(g1, g2)
+            if nontrivial:      # documented: "nontrivial: bool -- forbid identical mapping"
+                isos = [p for p in isos if p != tuple(range(1, g1["n"] + 1))]
             exp = [unary_index(1, g2["n"], p) for p in isos]
-            return compare(F, truth_table(F), exp, "isomorphisms G1 -> G2")
-        r = req("g2_iso", int(opb), enc_g(g1), enc_g(g2))
-        return Case(suite, r, impl, with_formula(check),
-                    cls="{}:{}".format(cls_tag, "same-order" if g1["n"] == g2["n"] else "different-order"),
-                    nontrivial=g1["n"] * g2["n"] > 0, info=info)
+            return compare(F, truth_table(F), exp,
+                           "isomorphisms G1 -> G2" + (" other than the identical mapping" if nontrivial else ""))
+        r = req("g2_iso", int(opb), nontrivial, enc_g(g1), enc_g(g2))
+        cls = "iso:nontrivial-flag" if nontrivial else \
+            "{}:{}".format(cls_tag, "same-order" if g1["n"] == g2["n"] else "different-order")
+        return Case(suite, r, impl, with_formula(check), cls=cls, nontrivial=g1["n"] * g2["n"] > 0, info=info)
 
     if suite == "g2_auto":
         g = info["g"]
@@ -483,6 +489,8 @@ def graph_pool(ctx, rng):
     if ctx["tier"] == "thorough":
         for n in range(0, 5):
             small += list(all_graphs(n))
+        five = list(all_graphs(5))
+        small += rng.sample(five, 120)
     else:
         for n in range(0, 4):
             small += list(all_graphs(n))
@@ -510,6 +518,8 @@ def cases(ctx):
             infos.append(("g2_ramseywit", dict(g=gr(1, []), k=2, s=1, symbreak=sb, opb=opb)))  # unsat, documented sat
             infos.append(("g2_ramseywit", dict(g=gr(0, []), k=1, s=0, symbreak=sb, opb=opb)))
             infos.append(("g2_ramseywit", dict(g=gr(4, [(1, 2), (2, 3), (3, 4)]), k=2, s=3, symbreak=sb, opb=opb)))
+        infos.append(("g2_iso", dict(g1=gr(1, []), g2=gr(1, []), nontrivial=True, opb=opb)))   # D30 replay
+        infos.append(("g2_iso", dict(g1=gr(3, [(1, 2)]), g2=gr(3, [(2, 1)]), nontrivial=True, opb=opb)))
         infos.append(("g2_iso", dict(g1=gr(0, []), g2=gr(0, []), opb=opb)))
         infos.append(("g2_iso", dict(g1=gr(0, []), g2=gr(2, [(1, 2)]), opb=opb)))
         infos.append(("g2_iso", dict(g1=gr(3, [(1, 2)]), g2=gr(0, []), opb=opb)))
@@ -549,6 +559,8 @@ def cases(ctx):
     for i, (g1, g2) in enumerate(pairs):
         for opb in ((False, True) if (thorough or i % 3 == 0) else (rng.random() < .5,)):
             infos.append(("g2_iso", dict(g1=g1, g2=g2, opb=opb)))
+        if i % 4 == 0:
+            infos.append(("g2_iso", dict(g1=g1, g2=g2, nontrivial=True, opb=rng.random() < .5)))
     for g in (small if thorough else pick(small, 40)) + big:
         for opb in (False, True):
             infos.append(("g2_auto", dict(g=g, opb=opb)))
@@ -597,13 +609,23 @@ def cases(ctx):
         yield c
 
 
+_SEARCH_CACHE = {}
+
+
 def search(ctx, case):
     """the model and the code disagree on `case`: look for an input where the REAL formula violates the
-    documented statement — the case itself first, then every graph (pair) on <= 3 vertices with the same flags"""
+    documented statement — the case itself first, then every graph (pair) on <= 3 (4) vertices with the same flags"""
     common.run_impl(case)
     r = common.run_oracle(case)
     if r is not None:
         return {"suite": case.suite, "info": case.info, "failure": r}
+    key = (case.suite,) + tuple(sorted((k, v) for k, v in case.info.items() if k in ("opb", "symbreak", "induced")))
+    if key not in _SEARCH_CACHE:
+        _SEARCH_CACHE[key] = _search_neighbourhood(case)
+    return _SEARCH_CACHE[key]
+
+
+def _search_neighbourhood(case):
     base = dict(case.info)
     smalls = [g for n in range(0, 4) for g in all_graphs(n)]
     trials = []
